@@ -4,9 +4,19 @@
              tag : <label>:<hex sureness>  or  -
            ga <hex>
            con <hexpenalty> <hexvalue>
-   output: fit=<hex,...> diff=<dec,...>   |  THROW                        *)
+   output: fit=<hex,...> diff=<dec,...> [tags=<label>:<hex>,...]
+           THROW diff=<dec,...>   (std::bad_variant_access; dataset as left)
+           UNDEFINED              (the C++ indexes out of bounds / converts NaN)
+   dyn_slot / gaussian build the classifier themselves (model of C08) with
+   glibc's atan / exp; the <tag> column is ignored.                        *)
 let f64_of_hex h = F64.of_bits (z_of_hex h)
 let hex_of_f64 f = hex_of_z (F64.to_bits f)
+
+let float_of_f64 f = Int64.float_of_bits (int64_bits_of_z (F64.to_bits f))
+let f64_of_float x = F64.of_bits (z_of_int64_bits (Int64.bits_of_float x))
+let lift1 g = fun f -> f64_of_float (g (float_of_f64 f))
+let m_atan = lift1 atan
+let m_exp = lift1 exp
 
 let parse_pout (t : string) : pout =
   if t = "v" then PVoid
@@ -56,7 +66,14 @@ let () =
             let out i = Hashtbl.find tbl (key i) in
             let tag i = Hashtbl.find ttbl (key i) in
             let pr (d, f) = print_endline (show_fit f ^ " " ^ show_diff d) in
-            let pro = function None -> print_endline "THROW" | Some r -> pr r in
+            let show_tags = function
+              | None -> ""
+              | Some l -> " tags=" ^ String.concat "," (List.map (fun (lab, su) -> dec_of_z lab ^ ":" ^ hex_of_f64 su) l) in
+            let pro tags = function
+              | Done (d, f) -> print_endline (show_fit f ^ " " ^ show_diff d ^ show_tags tags)
+              | Thrown d -> print_endline ("THROW " ^ show_diff d)
+              | Undefined -> print_endline "UNDEFINED" in
+            let ncls = nat_of_int (int_of_string classes) in
             (match kind with
              | "mae" -> pr (soe_eval (mae_err out) exs)
              | "mse" -> pr (soe_eval (mse_err out) exs)
@@ -70,9 +87,10 @@ let () =
              | "mse.pinned" -> pr (soe_eval_pinned (mse_err out) exs)
              | "rmae.pinned" -> pr (soe_eval_pinned (rmae_err_pinned out) exs)
              | "count.pinned" -> pr (soe_eval_pinned (count_err out) exs)
-             | "binary" -> pro (binary_eval out exs)
-             | "dynslot" -> pro (dyn_slot_eval tag exs)
-             | "gaussian" -> pro (gaussian_eval tag (z_of_int (int_of_string classes)) exs)
+             | "binary" -> pro (Some (List.map (fun e -> binary_tag out e.ex_in) exs)) (binary_eval_real out exs)
+             | "dynslot" -> pro (dyn_tags_real m_atan out ncls (nat_of_int 10) exs)
+                                (dyn_slot_eval_real m_atan out ncls (nat_of_int 10) exs)
+             | "gaussian" -> pro (gauss_tags_real m_exp out ncls exs) (gaussian_eval_real m_exp out ncls exs)
              | _ -> print_endline "UNKNOWN")
         | _ -> print_endline "BADLINE"
       with Not_found -> print_endline "NOORACLE" | Failure m -> print_endline ("BADLINE " ^ m))
